@@ -468,6 +468,19 @@ class Enumerator:
                     eff = (not dec) if neg else dec
                     bi = tr if eff else fl
                     continue
+                if t["ty"] in ("char", "u32", "u8") and not is_const(on) and not op_place(on).get("p"):
+                    # a match on character / integer constants: keep which constant was taken
+                    key = f"int:{self.key_of(op_place(on))}"
+                    vals_ = [val for val, bb in targets]
+                    for val, bb in targets:
+                        s2 = st.clone()
+                        s2.disc[key] = ("int", val)
+                        s2.hist.append((key, ("int", val)))
+                        self._walk(bb, s2, out)
+                    st.disc[key] = ("notint", frozenset(vals_))
+                    st.hist.append((key, st.disc[key]))
+                    bi = ow
+                    continue
                 # unknown scrutinee: fork over all successors
                 succs = []
                 for val, bb in targets:
